@@ -315,6 +315,7 @@ class PluginGen(object):
         hist = History(self.seed, self.g90e)
         hist.steps = self.steps
         hist.focus = self.focus
+        hist.regions_view = [dict(r) for r in self.regions]
         return hist
 
 
